@@ -4,9 +4,10 @@ import NunavutVerif.Proto
 /-!
 Driver for the C08 correspondence.  One request per line, 16 space-separated fields:
 
-  `run <variant> <flags> <lang> <extraSer> <extraType> <pkgDir> <outdir> <gs> <omit> <gnt> <ext> <stem> <templates> <supportTemplates> <entries>`
+  `run <variant> <flags> <lang> <extraSer> <extraType> <pkgDir> <outdir> <gs> <omit> <gnt> <ext> <stem> <templates> <supportTemplates> <entries> <lookupFiles>`
 
-* variant `new` (model of the repaired listing) | `old` (`runBeforeFix`)
+* variant `new` (model of the repaired listing) | `old` (`runBeforeFix`) | `oldinputs` (`runBeforeInputsFix`: before the
+          round-2 fixes of `--list-inputs`)
 * flags   four bits `list_outputs list_inputs list_configuration dry_run`, e.g. `0100` (the mode is `modeOf` of them)
 * lang    a row name of `Gen.SupportFiles.table`
 * extraSer, extraType   lists of encoded resource names appended to the row's `serSupport` / `typeSupport` (the
@@ -17,6 +18,7 @@ Driver for the C08 correspondence.  One request per line, 16 space-separated fie
 * templates, supportTemplates   `!` (option absent) or a list of `name~path` (`name~path~L`: reachable only through a
           symbolic link to a directory)
 * entries  list of `isNs~comps~stem~src~candidates~deps`; comps/candidates/deps are `+`-lists of encoded strings
+* lookupFiles  list of encoded paths: every `*.dsdl` / `*.uavcan` below the lookup directories (resolved)
 * every list: `,`-separated (`+` inside an entry), `!` = empty list (`@` = a present but empty directory)
 
 A second request, `parse <arg> <arg> …` (every argument string encoded; `parse` alone = empty command line), runs the
@@ -147,9 +149,9 @@ end parse
 def answer (line : String) : String :=
   match line.splitOn " " with
   | "parse" :: toks => answerParse (toks.filter (· ≠ ""))
-  | ["run", variant, flags, lang, xser, xtype, pkgDir, outdir, gs, om, gnt, ext, stem, tpl, stpl, entries] =>
-    let parsed : Option (Bool × Mode × Args × List Entry × Bool) := do
-      let old ← if variant = "old" then some true else if variant = "new" then some false else none
+  | ["run", variant, flags, lang, xser, xtype, pkgDir, outdir, gs, om, gnt, ext, stem, tpl, stpl, entries, lookup] =>
+    let parsed : Option (Nat × Mode × Args × List Entry × Bool) := do
+      let old ← if variant = "old" then some 1 else if variant = "new" then some 0 else if variant = "oldinputs" then some 2 else none
       let m ← parseFlags flags
       let row0 ← table.find? (fun r => r.name = lang)
       let row : LangRow := { row0 with serSupport := row0.serSupport ++ (← parseList ',' decS xser),
@@ -159,13 +161,14 @@ def answer (line : String) : String :=
         lang := row, pkgDir := ← decS pkgDir, outdir := splitOnChar od '/', genSupport := ← parseGs gs,
         omitSer := ← parseBit om, gnt := ← parseBit gnt, extArg := ← parseOpt decS ext,
         stemArg := ← parseOpt decS stem, templates := ← parseOpt (parseList ',' parseTemplateFile) tpl,
-        supportTemplates := ← parseOpt (parseList ',' parseTemplateFile) stpl }
+        supportTemplates := ← parseOpt (parseList ',' parseTemplateFile) stpl,
+        lookupFiles := ← parseList ',' decS lookup }
       let es ← parseList ',' parseEntry entries
       pure (old, m, a, es, od.startsWith "/")
     match parsed with
     | none => "bad-op"
     | some (old, m, a, es, isAbs) =>
-      let r := if old then runBeforeFix m a es else run m a es
+      let r := if old = 1 then runBeforeFix m a es else if old = 2 then runBeforeInputsFix m a es else run m a es
       let showPath (p : OutPath) : String := encS ((if isAbs then "/" else "") ++ "/".intercalate p)
       let showOp : FsOp → String
         | .handleOverwrite p => "h" ++ showPath p
